@@ -183,12 +183,171 @@ def run(ctx):
             if float(lod[gy, gx]) < 1e-3 and not torch.allclose(out[0, :, gy, gx], img[0, :, gy, gx], atol=1e-4):
                 ctx.violation('the gaze pixel is blurred (lod %g): %s -> %s' % (float(lod[gy, gx]), img[0, :, gy, gx].tolist(), out[0, :, gy, gx].tolist()),
                               rec, {'fn': 'blur', 'what': 'gaze_pixel'})
+    more_foveation(ctx)
+
+
+def gaze_pixel(gaze, h, w):
+    """pixel (row, column) under the gaze in the convention of this module: gaze = (x, y) in normalised image coordinates,
+    image_pixel_size = (height, width); taken from the eccentricity map (whose minimum the pooling maps are built around)"""
+    import odak.learn.perception.foveation as FV
+    ecc, _ = FV.make_eccentricity_distance_maps(gaze, (h, w), 0.3, 0.6)
+    return divmod(int(torch.argmin(ecc)), w)
+
+
+def radial_map_check(gaze, h, w):
+    """make_radial_map called the way MetamericLoss calls it: size = [rows, columns] of the statistics map, gaze = the loss's gaze"""
+    import odak.learn.perception.foveation as FV
+    r = FV.make_radial_map([h, w], gaze)
+    if tuple(r.shape) != (h, w):
+        return 'shape', 'returns a %s map for size [%d, %d]' % (tuple(r.shape), h, w)
+    if not (torch.isfinite(r).all() and (r >= 0).all() and float(r.max()) <= 1 + 1e-6):
+        return 'finite_nonneg', 'values outside [0, 1] or not finite (min %g, max %g)' % (float(r.min()), float(r.max()))
+    if abs(float(r.max()) - 1) > 1e-6:
+        return 'normalised', 'the largest value is %g, not 1' % float(r.max())
+    gy, gx = gaze_pixel(gaze, h, w)
+    my, mx = divmod(int(torch.argmin(r)), w)
+    if float(r[gy, gx]) > float(r.min()) + 1.5 / max(h, w):
+        return 'min_at_gaze', ('the map is smallest at pixel (row %d, column %d) but the gaze (x = %g, y = %g) is at pixel (row %d, column %d), where the '
+                               'map is %g (minimum %g)' % (my, mx, gaze[0], gaze[1], gy, gx, float(r[gy, gx]), float(r.min())))
+    return None, None
+
+
+def equi_maps_check(ang, h, w, alpha, mode):
+    import odak.learn.perception.foveation as FV
+    px = FV.make_equi_pooling_size_map_pixels(ang, (h, w), alpha, mode)
+    lod = FV.make_equi_pooling_size_map_lod(ang, (h, w), alpha, mode)
+    for name, m in (('pixels', px), ('lod', lod)):
+        if tuple(m.shape) != (h, w):
+            return 'shape', '%s map has shape %s for image size (%d, %d)' % (name, tuple(m.shape), h, w)
+        if not (torch.isfinite(m).all() and (m >= 0).all()):
+            return 'finite_nonneg', '%s map is not finite and non-negative (min %g)' % (name, float(m.min()))
+    # pixel whose viewing direction is closest to the gaze direction (yaw along the width in [-pi, pi], pitch along the height in [-pi/2, pi/2])
+    yaw = torch.linspace(-math.pi, math.pi, w, dtype=torch.float64)[None, :]
+    pitch = torch.linspace(-math.pi / 2, math.pi / 2, h, dtype=torch.float64)[:, None]
+    dot = torch.sin(yaw) * torch.cos(pitch) * math.sin(ang[0]) * math.cos(ang[1]) + torch.sin(pitch) * math.sin(ang[1]) + \
+        torch.cos(yaw) * torch.cos(pitch) * math.cos(ang[0]) * math.cos(ang[1])
+    gy, gx = divmod(int(torch.argmax(dot)), w)
+    for name, m in (('pixels', px), ('lod', lod)):
+        if float(m[gy, gx]) > float(m.min()) + 1e-5 * max(1.0, float(m.max())):
+            my, mx = divmod(int(torch.argmin(m)), w)
+            return 'min_at_gaze', '%s map is %g at the gaze pixel (row %d, column %d) but %g at (row %d, column %d)' % (name, float(m[gy, gx]), gy, gx, float(m.min()), my, mx)
+    want = torch.clamp(torch.log2(1e-6 + px), min=0)
+    if not torch.allclose(lod, want, atol=1e-5):
+        return 'lod_vs_pixels', 'the lod map is not max(0, log2(pooling size in pixels)): max difference %g' % float((lod - want).abs().max())
+    # yaw -pi and +pi are the same direction: first and last column agree; a gaze turned by a full revolution gives the same map
+    if not torch.allclose(px[:, 0], px[:, -1], atol=1e-3 * max(1.0, float(px.max()))):
+        return 'wrap', 'first and last column (yaw -pi and +pi) differ by %g' % float((px[:, 0] - px[:, -1]).abs().max())
+    turn = FV.make_equi_pooling_size_map_pixels([ang[0] + 2 * math.pi * (1 if ang[0] < 0 else -1), ang[1]], (h, w), alpha, mode)
+    if not torch.allclose(px, turn, atol=1e-3 * max(1.0, float(px.max()))):
+        return 'wrap', 'a gaze yaw turned by 2 pi changes the map by %g' % float((px - turn).abs().max())
+    return None, None
+
+
+def blur_check(h, w, centre, alpha, mode, equi, seed, width=0.2, dist=0.7, channels=3, batch=1):
+    """RadiallyVaryingBlur.blur is an averaging operator; returns (what, text, final_mip)"""
+    from odak.learn.perception.radially_varying_blur import RadiallyVaryingBlur
+    g = torch.Generator().manual_seed(seed)
+    img = torch.rand(batch, channels, h, w, generator=g) * 1.7 - 0.4
+    a_, b_ = h, w
+    while a_ > 1 and b_ > 1:
+        a_, b_ = a_ // 2, b_ // 2
+    mip = '%dx%d' % (a_, b_)
+    b = RadiallyVaryingBlur()
+    try:
+        out = b.blur(img, alpha, width, dist, centre, mode, equi)
+        const = torch.full((batch, channels, h, w), 0.37)
+        outc = RadiallyVaryingBlur().blur(const, alpha, width, dist, centre, mode, equi)
+    except Exception as e:
+        return 'raises', 'raised %r for a %dx%d image (coarsest mip level %s)' % (e, h, w, mip), mip
+    if out.shape != img.shape:
+        return 'shape', 'changes the shape %s -> %s' % (tuple(img.shape), tuple(out.shape)), mip
+    if not torch.isfinite(out).all():
+        return 'finite', 'output is not finite', mip
+    if not torch.allclose(outc, const, atol=1e-5):
+        return 'constant', 'does not keep a constant image constant (max deviation %g)' % float((outc - const).abs().max()), mip
+    if float(out.max()) > float(img.max()) + 1e-5 or float(out.min()) < float(img.min()) - 1e-5:
+        return 'range', 'leaves the value range of its input: [%g, %g] -> [%g, %g]' % (float(img.min()), float(img.max()), float(out.min()), float(out.max())), mip
+    lod = b.lod_map
+    gy, gx = divmod(int(torch.argmin(lod)), w)
+    if float(lod[gy, gx]) < 1e-3 and not torch.allclose(out[:, :, gy, gx], img[:, :, gy, gx], atol=1e-4):
+        return 'gaze_pixel', 'the gaze pixel is blurred (lod %g): %s -> %s' % (float(lod[gy, gx]), img[0, :, gy, gx].tolist(), out[0, :, gy, gx].tolist()), mip
+    return None, None, mip
+
+
+def more_foveation(ctx):
+    rng = ctx.rng
+    ctx.rule += ('; make_radial_map: square / non-square sizes x gazes (centre, corners, borders, diagonal, off-diagonal); equirectangular pooling maps: '
+                 'square, 2:1, 1:2 and odd sizes x gaze angles incl. +-pi, poles x both modes; RadiallyVaryingBlur: {planar, equi} x {quadratic, linear} x sizes x '
+                 'channel counts')
+    # ---------------- make_radial_map (as MetamericLoss(use_radial_weight=True) calls it)
+    GZ = [[0.5, 0.5], [0.25, 0.25], [0.8, 0.8], [0.0, 0.0], [1.0, 1.0], [0.2, 0.7], [0.9, 0.1], [0.5, 0.0], [1.0, 0.3]]
+    for (h, w) in [(16, 16), (33, 33), (16, 24), (40, 12), (9, 31), (2, 2)]:
+        for k, gaze in enumerate(GZ + [[rng.random(), rng.random()] for _ in range(ctx.n(2, 10))]):
+            sym = abs(gaze[0] - gaze[1]) < 1e-12
+            rec = {'fn': 'make_radial_map', 'size': [h, w], 'gaze': gaze}
+            ctx.case(('radial', h, w, tuple(gaze)), True, rec if k == 5 else None)
+            ctx.count('radial_map/%s/%s' % ('square' if h == w else 'non-square', 'gaze x = y' if sym else 'gaze x != y'))
+            try:
+                what, text = radial_map_check(gaze, h, w)
+            except Exception as e:
+                what, text = 'raises', 'raised %r' % e
+            if what:
+                ctx.violation('make_radial_map([%d, %d], gaze = %s): %s' % (h, w, gaze, text), rec,
+                              {'fn': 'make_radial_map', 'what': what, 'gaze_on_diagonal': sym, 'square': h == w})
+    # ---------------- equirectangular pooling maps
+    ANG = [[0.0, 0.0], [math.pi, 0.0], [-math.pi, 0.3], [1.0, math.pi / 2], [-2.0, -math.pi / 2], [3.0, 1.2], [-0.7, -0.4], [math.pi / 2, 0.0]]
+    for (h, w) in [(32, 64), (24, 24), (48, 24), (17, 51), (33, 47), (20, 65)]:
+        for k, ang in enumerate(ANG + [[rng.uniform(-math.pi, math.pi), rng.uniform(-math.pi / 2, math.pi / 2)] for _ in range(ctx.n(2, 10))]):
+            mode = ['quadratic', 'linear'][k % 2]
+            alpha = rng.uniform(0.05, 0.5)
+            rec = {'fn': 'make_equi_pooling_size_map', 'size': [h, w], 'angles': ang, 'alpha': alpha, 'mode': mode}
+            ctx.case(('equi_maps', h, w, tuple(ang), mode), True, rec if k == 6 else None)
+            ctx.count('equi_maps/%s/%s' % ('2:1' if w == 2 * h else 'square' if h == w else 'other aspect', mode))
+            try:
+                what, text = equi_maps_check(ang, h, w, alpha, mode)
+            except Exception as e:
+                what, text = 'raises', 'raised %r' % e
+            if what:
+                ctx.violation('make_equi_pooling_size_map_* (size (%d, %d), angles %s, %s): %s' % (h, w, ang, mode, text), rec,
+                              {'fn': 'make_equi_pooling_size_map', 'what': what, 'aspect': '%dx%d' % (h, w)})
+    # ---------------- RadiallyVaryingBlur: every mode, planar and equirectangular
+    k = 0
+    for equi in (False, True):
+        for mode in ('quadratic', 'linear'):
+            for (h, w) in ([(32, 64), (32, 32), (48, 24), (17, 29)] if ctx.quick else [(32, 64), (32, 32), (48, 24), (17, 29), (64, 128), (40, 40), (21, 64)]):
+                k += 1
+                if equi:
+                    centre = [[0.0, 0.0], [math.pi, 0.2], [-2.5, -1.0], [1.0, math.pi / 2]][k % 4] if k % 3 else [rng.uniform(-math.pi, math.pi), rng.uniform(-1.5, 1.5)]
+                else:
+                    centre = [[0.5, 0.5], [0.0, 1.0], [0.3, 0.8]][k % 3] if k % 2 else [rng.randrange(w) / (w - 1), rng.randrange(h) / (h - 1)]
+                alpha = [0.05, 0.2, 0.5][k % 3]
+                ch, batch = [3, 1, 4][k % 3], [1, 1, 2][(k // 3) % 3]
+                seed = rng.randrange(10 ** 6)
+                rec = {'fn': 'blur', 'size': [h, w], 'centre': centre, 'alpha': alpha, 'mode': mode, 'equi': equi, 'channels': ch, 'batch': batch, 'torch_seed': seed}
+                ctx.case(('blur_grid', h, w, tuple(centre), mode, equi, ch), True, rec if k % 5 == 0 else None)
+                ctx.count('blur/%s/%s' % ('equi' if equi else 'planar', mode))
+                what, text, mip = blur_check(h, w, centre, alpha, mode, equi, seed, channels=ch, batch=batch)
+                if what == 'raises' and batch > 1 and 'IndexError' in text and 'mask' in text:
+                    # N > 1 is rejected (the level masks are built for one image): a rejected input class, the single image is checked instead
+                    ctx.count('blur/rejected: batch of %d images (IndexError, mask built for N = 1)' % batch)
+                    rec['batch'] = batch = 1
+                    what, text, mip = blur_check(h, w, centre, alpha, mode, equi, seed, channels=ch, batch=1)
+                if what:
+                    ctx.violation('RadiallyVaryingBlur.blur(%s, equi=%s) %s' % (mode, equi, text), rec,
+                                  {'fn': 'blur', 'what': what, 'final_mip': mip, 'equi': equi, 'mode': mode})
 
     __import__('harness.props.genfoveation', fromlist=['x']).check_generated_foveation(ctx)   # regenerated definitions vs /repo
 
 def replay(ctx, rep):
     from odak.learn.perception.spatial_steerable_pyramid import pad_image_for_pyramid
     r = rep['replay']
+    if r.get('fn') == 'make_radial_map':
+        what, text = radial_map_check(r['gaze'], r['size'][0], r['size'][1]); print(text); return what is None
+    if r.get('fn') == 'make_equi_pooling_size_map':
+        what, text = equi_maps_check(r['angles'], r['size'][0], r['size'][1], r['alpha'], r['mode']); print(text); return what is None
+    if r.get('fn') == 'blur' and 'torch_seed' in r:
+        what, text, _ = blur_check(r['size'][0], r['size'][1], r['centre'], r['alpha'], r['mode'], r['equi'], r['torch_seed'], channels=r['channels'], batch=r['batch'])
+        print(text); return what is None
     if 'levels' not in r:
         return True
     h, w, n = r['h'], r['w'], r['levels']
